@@ -671,6 +671,20 @@ def gen_C16(w, tier):
                              ent=w.entropy_for(ps, x, redraws=r.choice([0, 0, 1, 2]))))
             sess.append(dict(ps=ps, side=sb, pw=pw, ids=ids, x=y, ops=session_script(w, r, ps, sb),
                              ent=w.entropy_for(ps, y, redraws=r.choice([0, 1]))))
+        # a clone of the first pair (same inputs, same entropy, hence the same messages) one end of which receives the
+        # peer's element in a spelling the decoder must refuse: whether it is refused must not depend on whether
+        # another session has already accepted the canonical spelling of the same element
+        if gi % 2 == 0:
+            a0, b0 = dict(sess[0]), dict(sess[1])
+            kind = gi // 2 % 4
+            if a0["ps"].kind == "ed":
+                a0["mangle"] = [lambda m: m + b"\x00", lambda m: m + m[1:], lambda m: m[:-1], lambda m: m + b"\x00"][kind]
+            else:
+                a0["mangle"] = [lambda m: m[:1] + b"\x00" + m[1:], lambda m: m[:1] + (m[1:].lstrip(b"\x00") if m[1:2] == b"\x00" else m[1:] + b"\x00"),
+                                lambda m: m + b"\x00", lambda m: m[:-1]][kind]
+            a0["ops"] = ["start", "finish"]
+            b0["ops"] = ["start"]
+            sess += [a0, b0]
         fp0 = fingerprint(w)
 
         def run(order, name, tags):
@@ -701,7 +715,7 @@ def gen_C16(w, tier):
                     if msg[i] is None and o.startswith("ok"):
                         msg[i] = payload(o)
                 elif op == "finish":
-                    o = sc.finish(sid[i], msg[peer])
+                    o = sc.finish(sid[i], s["mangle"](msg[peer]) if "mangle" in s else msg[peer])
                 elif op == "ser":
                     o = sc.do("ser %d" % sid[i])
                 else:
@@ -715,7 +729,9 @@ def gen_C16(w, tier):
             return sc
         total = [i for i, s in enumerate(sess) for _ in s["ops"]]
         # reference: each pair run alone, sequentially
-        ref = run(sorted(total, key=lambda i: (i // 2, )), "C16/%d/ref" % gi, ("reference",))
+        # (the clone that receives the refused spelling runs first in the reference, before anything in this process
+        # has seen the canonical spelling)
+        ref = run(sorted(total, key=lambda i: (0 if ("mangle" in sess[i] or "mangle" in sess[i ^ 1]) else 1, i // 2)), "C16/%d/ref" % gi, ("reference",))
         out.append(ref)
         orders = []
         if len(total) <= 8 and not big:
